@@ -29,6 +29,16 @@ def die(msg: str, code: int = 2):
     sys.exit(code)
 
 
+def drift_tier(prop, what, fn, default=(0, 0)):
+    """Run an algorithm-level conformance tier.  It follows the code's internals (wrappers around private functions); when it
+    cannot -- because the code under test changed shape -- that is spec drift to report, never a crashed check."""
+    try:
+        return fn()
+    except Exception as e:  # noqa: BLE001
+        print("SPEC-DRIFT property=%s the %s conformance run could not follow the code (%s: %s)" % (prop, what, type(e).__name__, str(e)[:200]), flush=True)
+        return default
+
+
 def bind_pacti():
     """Make `import pacti` resolve to the tree under verification, or exit 2."""
     if sys.path[0] != SRC:
